@@ -47,6 +47,9 @@ def gen_tasks(tier, seed):
                         continue
                     for oo in ({}, {"use_min_gen_set_lowerbound": True}):
                         tasks.append({**base, "edges": stale, "ignored": [list(ex)], "kwargs": {"weight_type": "int", "elements_to_ignore": [list(ex)], "optimization_options": dict(oo)}})
+                    # ... and with the stale value 0 (an ignored edge's value must not limit how often a walk may use it)
+                    zero = [(u, v, 0 if (u, v) == ex else f) for (u, v, f) in wedges]
+                    tasks.append({**base, "edges": zero, "ignored": [list(ex)], "kwargs": {"weight_type": "int", "elements_to_ignore": [list(ex)]}})
             # subset constraint taken from one generating walk (so a decomposition satisfying it exists, possibly with more walks)
             w = rng.choice(walks)
             wes = list(zip(w[:-1], w[1:]))
